@@ -37,7 +37,8 @@ impl Projector {
             }
             Node::Section(_) => {
                 blocks.push(GraphBlock::Header(
-                    self.header_level as u8 + 1,
+                    // squash can nest sections deeper than any heading level: do not overflow
+                    (self.header_level as u8).saturating_add(1),
                     iter.inlines(),
                 ));
 
